@@ -2,7 +2,7 @@
 
 //go:debug randseednop=0
 
-package c12
+package c13
 
 import (
 	"encoding/json"
@@ -11,10 +11,11 @@ import (
 	"time"
 
 	"verif/harness/choice"
+	"verif/harness/racelog"
 	"verif/harness/wproto"
 )
 
-func runOne(t *testing.T, c *Case, work, sched *choice.Source, out *wproto.Out, id int) {
+func runOne(t *testing.T, c *Case, work, sched *choice.Source, out *wproto.Out, tail *racelog.Tail, id int) {
 	out.Begin(id)
 	st := &Stats{}
 	fs := RunCase(t, c, work, sched, st)
@@ -27,38 +28,43 @@ func runOne(t *testing.T, c *Case, work, sched *choice.Source, out *wproto.Out, 
 			out.Finding(id, f.Sig, "mismatch", f.Msg, c)
 		}
 	}
+	for _, rep := range tail.New() {
+		out.Count("race_reports", 1)
+		if !rep.Repo {
+			out.Finding(id, "harness-race", "harness", "race report without a model3d frame:\n"+rep.Text, c)
+			sigs = append(sigs, "harness-race")
+			continue
+		}
+		if !seen[rep.Sig] {
+			seen[rep.Sig] = true
+			sigs = append(sigs, rep.Sig)
+			out.Finding(id, rep.Sig, "race", fmt.Sprintf("%s: data race between %s and %s\n%s", st.Desc, rep.Tops[0], rep.Tops[1], rep.Text), c)
+		}
+	}
 	out.End(id, sigs)
 	out.Count("evaluations", 1)
-	out.Count("algo."+c.Algo, 1)
+	out.Count("kind."+c.Kind, 1)
 	out.Count("sim_steps", int64(st.Steps))
 	out.Count("preemptions", int64(st.Preempt))
-	out.Count("solid_calls", int64(st.Calls))
+	out.Count("lock_waits", int64(st.LockWaits))
 	out.Count(fmt.Sprintf("workers.%02d", st.Workers), 1)
 	if st.Tasks > int(out.Counters["max_tasks"]) {
 		out.Counters["max_tasks"] = int64(st.Tasks)
 	}
-	if st.MaxRunnable > int(out.Counters["max_runnable"]) {
-		out.Counters["max_runnable"] = int64(st.MaxRunnable)
-	}
 	for k, v := range st.Probes {
 		out.Count("probe."+k, int64(v))
 	}
-	if st.Discarded != "" {
-		out.Count("discarded", 1)
-		out.Count("probe.discarded: "+st.Discarded, 1)
-	} else {
-		for _, h := range st.TraceHashes {
-			out.SetAdd("distinct_interleavings", h)
-		}
-		if st.Preempt > 0 && st.Faces > 0 {
-			b, _ := json.Marshal(c)
-			out.SetAdd("distinct_nontrivial", wproto.Hash(b))
-		}
+	for _, h := range st.TraceHashes {
+		out.SetAdd("distinct_interleavings", h)
 	}
-	if id%37 == 0 {
-		out.Sample(map[string]any{"case": id, "what": st.Desc, "faces": st.Faces, "sched_steps": st.Steps, "preemptions": st.Preempt, "tasks": st.Tasks}, 8)
+	if st.Preempt > 0 {
+		b, _ := json.Marshal(c)
+		out.SetAdd("distinct_nontrivial", wproto.Hash(b))
 	}
-	out.Tick(64)
+	if id%23 == 0 {
+		out.Sample(map[string]any{"case": id, "kind": c.Kind, "what": st.Desc, "sched_steps": st.Steps, "preemptions": st.Preempt, "tasks": st.Tasks}, 10)
+	}
+	out.Tick(32)
 }
 
 func TestWorker(t *testing.T) {
@@ -70,9 +76,10 @@ func TestWorker(t *testing.T) {
 	if err != nil {
 		t.Fatal(err)
 	}
+	tail := racelog.Open()
 	mk := func(i int) (*Case, *choice.Source, *choice.Source) {
-		c := &Case{Property: "C12", Engine: "simsched", Algo: Algos[i%len(Algos)]}
-		return c, choice.New(job.Seed, fmt.Sprint("c12-work-", i)), choice.New(job.Seed, fmt.Sprint("c12-sched-", i))
+		c := &Case{Property: "C13", Engine: "simsched", Kind: Kinds[i%len(Kinds)]}
+		return c, choice.New(job.Seed, fmt.Sprint("c13-work-", i)), choice.New(job.Seed, fmt.Sprint("c13-sched-", i))
 	}
 	out.Watch(120 * time.Second)
 	switch job.Mode {
@@ -86,10 +93,10 @@ func TestWorker(t *testing.T) {
 				t.Fatal(err)
 			}
 			if c.Work == nil && c.Sched == nil && c.Seed != 0 {
-				runOne(t, &c, choice.New(c.Seed, fmt.Sprint("c12-work-", c.Index)), choice.New(c.Seed, fmt.Sprint("c12-sched-", c.Index)), out, i)
+				runOne(t, &c, choice.New(c.Seed, fmt.Sprint("c13-work-", c.Index)), choice.New(c.Seed, fmt.Sprint("c13-sched-", c.Index)), out, tail, i)
 				continue
 			}
-			runOne(t, &c, choice.Replay(c.Work), choice.Replay(c.Sched), out, i)
+			runOne(t, &c, choice.Replay(c.Work), choice.Replay(c.Sched), out, tail, i)
 		}
 		out.Finish("done", len(job.Cases))
 	case "dump":
@@ -105,7 +112,7 @@ func TestWorker(t *testing.T) {
 				continue
 			}
 			c, w, s := mk(i)
-			runOne(t, c, w, s, out, i)
+			runOne(t, c, w, s, out, tail, i)
 		}
 		out.Finish("done", -1)
 	}
